@@ -294,3 +294,46 @@ Proof.
   f_equal. destruct s; [rewrite from_biguint_val by (try apply Hc; discriminate); reflexivity| |rewrite from_biguint_val by (try apply Hc; discriminate); reflexivity].
   simpl; unfold ival; simpl; lia.
 Qed.
+
+(** ** canonical = well-formed with the top digit carrying weight *)
+Lemma canon_lower l : canon l -> l <> [] -> B ^ (Z.of_nat (length l) - 1) <= val l.
+Proof.
+  induction l as [|d l IH]; intros Hc Hn; [congruence|].
+  apply canon_cons_inv in Hc as (Hd & Hc & Hz).
+  change (length (d :: l)) with (S (length l)). rewrite Nat2Z.inj_succ, val_cons.
+  replace (Z.succ (Z.of_nat (length l)) - 1) with (Z.of_nat (length l)) by lia.
+  destruct l as [|e l'].
+  - cbn [length Z.of_nat val]. rewrite Z.pow_0_r. specialize (Hz eq_refl). unfold digit in Hd. lia.
+  - assert (Hne : e :: l' <> []) by discriminate. specialize (IH Hc Hne).
+    change (length (e :: l')) with (S (length l')) in *. rewrite B_pow_S.
+    rewrite Nat2Z.inj_succ in IH. replace (Z.succ (Z.of_nat (length l')) - 1) with (Z.of_nat (length l')) in IH by lia.
+    unfold digit in Hd. pose proof B_pos. nia.
+Qed.
+Lemma canon_of_lower l : wf l -> l <> [] -> B ^ (Z.of_nat (length l) - 1) <= val l -> canon l.
+Proof.
+  induction l as [|d l IH]; intros Hw Hn Hv; [congruence|].
+  apply wf_cons in Hw as [Hd Hl]. split; [apply wf_cons; auto|].
+  change (length (d :: l)) with (S (length l)) in Hv. rewrite Nat2Z.inj_succ, val_cons in Hv.
+  replace (Z.succ (Z.of_nat (length l)) - 1) with (Z.of_nat (length l)) in Hv by lia.
+  rewrite strip_cons. destruct l as [|e l'].
+  - cbn [strip]. cbn [length Z.of_nat val] in Hv. rewrite Z.pow_0_r in Hv.
+    destruct (Z.eqb_spec d 0); [lia|reflexivity].
+  - assert (Hne : e :: l' <> []) by discriminate.
+    assert (Hc : canon (e :: l')).
+    { apply IH; auto. change (length (e :: l')) with (S (length l')) in *.
+      rewrite B_pow_S in Hv. rewrite Nat2Z.inj_succ.
+      replace (Z.succ (Z.of_nat (length l')) - 1) with (Z.of_nat (length l')) by lia.
+      unfold digit in Hd. pose proof B_pos. pose proof (B_pow_nat (length l')). nia. }
+    destruct Hc as [_ Hs]. rewrite Hs. reflexivity.
+Qed.
+Lemma canon_app_last l d : wf l -> digit d -> d <> 0 -> canon (l ++ [d]).
+Proof.
+  intros Hl Hd Hn. apply canon_of_lower.
+  - apply wf_app; split; auto. apply wf_cons; split; [auto|constructor].
+  - destruct l; discriminate.
+  - rewrite app_length, val_app. cbn [length]. rewrite val_single.
+    replace (Z.of_nat (length l + 1) - 1) with (Z.of_nat (length l)) by lia.
+    pose proof (val_nonneg l Hl). pose proof (B_pow_nat (length l)). unfold digit in Hd. nia.
+Qed.
+Lemma length_enc_le l : wf l -> (length (enc (val l)) <= length l)%nat.
+Proof. intros H. rewrite enc_strip by auto. apply length_strip. Qed.
